@@ -32,6 +32,14 @@ if TYPE_CHECKING:
 
 FEE_KEY = "Fee"
 
+_MIRRORED_COMPARISON = {Less: Greater, LessE: GreaterE, Greater: Less, GreaterE: LessE}
+
+
+def _mirrored_comparison(ins: "Instruction") -> "Instruction":
+    """Return the comparison that holds for (b, a) exactly when :ins: holds for (a, b)."""
+    mirrored = _MIRRORED_COMPARISON.get(type(ins))
+    return mirrored() if mirrored is not None else ins
+
 
 # TODO: Change is_unknown to unknown/known/unbounded enum.
 @dataclass
@@ -181,6 +189,12 @@ class FeeField(DataflowTransactionContext):
                 return FeeValue(), FeeValue()
 
             ins = ins_stack_value.instruction
+            field_is_second_operand = (
+                not isinstance(arg2, UnknownStackValue) and is_value_matches_key(key, arg2)
+            ) and (isinstance(arg1, UnknownStackValue) or not is_value_matches_key(key, arg1))
+            if field_is_second_operand:
+                # `c op Fee` constrains Fee by the mirrored operator: `c < Fee` is `Fee > c`
+                ins = _mirrored_comparison(ins)
             return self._get_asserted_max_value(ins, compared_value)
         return FeeValue(), FeeValue()
 
